@@ -31,7 +31,38 @@ FINDINGS = {
 }
 
 
+def spec_trace(rep):
+    """C17s: the log is the implementation's behaviour"""
+    posted = ceased = base = 0
+    if any(op.strip() == "hang" for op in rep["ops"]):
+        return "a waiter stayed asleep in WaitForActiveVigilsClosed after every operation had ceased (lost wake-up under concurrent load)"
+    # the ordering argument below needs the decrement to be logged under v.mu
+    under_mu = "decrementUnderCondLock=yes" in (rep.get("drv_args") or [])
+    for op in rep["ops"]:
+        w = op.split()
+        if not w:
+            continue
+        if w[0] == "bpost":
+            posted += 1
+        elif w[0] == "cdec":
+            ceased += 1
+            if len(w) > 1 and w[1].lstrip("-").isdigit() and int(w[1]) < 0:
+                return "the vigil counter went negative (%s)" % op
+            base = posted - ceased
+        elif w[0] == "passed":
+            # `base`: operations whose BeginVigil had returned before the previous holder of v.mu logged its
+            # line and that have not ceased — this waiter took the mutex later, so it must have seen them
+            if base > 0 and under_mu:
+                return "`%s`: the drain returned while %d operation(s) were in flight (begun before the waiter took the mutex, not ceased)" % (op, base)
+            base = posted - ceased
+        elif w[0] == "checked":
+            base = posted - ceased
+    return None
+
+
 def spec_violated(rep):
+    if rep.get("correspondence") == "C17s":
+        return spec_trace(rep)
     for op, line in zip(rep["ops"], rep["impl"]):
         w = line.split()
         if len(w) > 2 and w[0] == "expect" and w[2] == "stuck":
@@ -59,17 +90,24 @@ def run(ctx):
         args = ["%s=%s" % (k, facts.get(k, "unknown")) for k in ("decrementUnderCondLock", "checkStrict", "closeCancels")]
         c = K.correspondence(ctx, "C17", args)
         corrs.append(("C17", args, c))
+        # genuinely concurrent run of the real vigil; its hook log must be a trace of the model
+        targs = args + ["mode=trace"]
+        ct = K.correspondence(ctx, "C17s", targs, drv_domain="C17")
+        corrs.append(("C17s", targs, ct))
+        ctx.cov["trace_inclusion"] = {"domain": "C17s", "log_lines": len(ct.ops), "rounds": len(ct.cases),
+                                      "lines_rejected_by_model": len(ct.mismatch), "event_histogram": ct.op_hist}
     else:
         ctx.violation("harness does not build against the repository", {"correspondence": "C17", "log": getattr(ctx, "hx_log", "")[-2000:]},
                       tag="build", found_input=False)
     K.decide_standard(ctx, corrs, FINDINGS)
     K.report_mismatch(ctx, spec_violated)
     # Spec oracle over the whole run, implementation replies only
-    for _, _, c in corrs:
+    for name, dargs, c in corrs:
         if c.err or getattr(ctx, "confirmed", {}):
             continue
         for cs in c.cases:
             rep = K.case_replay(c, cs)
+            rep["correspondence"], rep["drv_args"] = name, dargs
             why = spec_violated(rep)
             if why:
                 ctx.violation("implementation violates the property: " + why, rep, tag="impl")
